@@ -4,7 +4,8 @@
 //! divergent draws keep the position, the trajectory switch happens once.
 use crate::targets::*;
 use crate::util::*;
-use nuts_rs::{Chain, CpuMath, DiagMclmcSettings, LowRankMclmcSettings, MclmcTrajectoryKind, Settings};
+use nuts_rs::verif_hooks::StatsDims;
+use nuts_rs::{Chain, CpuMath, DiagMclmcSettings, LowRankMclmcSettings, MclmcTrajectoryKind, Settings, Storable, Value};
 use rand::SeedableRng;
 use serde_json::json;
 
@@ -34,13 +35,15 @@ pub fn run(cfg: &Cfg) -> Result<Vec<DrawRec>, String> {
         let mut prev: Vec<f64> = vec![0.3; cfg.dim];
         for d in 0..(cfg.num_tune + cfg.num_draws) {
             let first = log.lock().unwrap().len();
-            let (pos, progress) = chain.draw().map_err(|e| format!("draw {d}: {e}"))?;
+            let (pos, _exp, mut stats, progress) = chain.expanded_draw().map_err(|e| format!("draw {d}: {e}"))?;
+            let avg_step = { let dims = { let m = chain.math(); StatsDims::from(&*m) };
+                stats.get_all(&dims).into_iter().find_map(|(n, v)| match (n, v) { ("average_step_size", Some(Value::ScalarF64(x))) => Some(x), _ => None }).unwrap_or(f64::NAN) };
             let outs: Vec<u8> = log.lock().unwrap()[first..].iter().map(|r| if r.fault.is_some() { 1 } else { 0 }).collect();
             let [_, _, _, _, v] = chain.verif_state_vectors();
             let vnorm = v.iter().map(|x| x * x).sum::<f64>().sqrt();
             let micro = match cfg.kind { 0 => true, 1 => false, _ => d >= switch_draw };
             let moved = pos.iter().zip(prev.iter()).any(|(a, b)| a.to_bits() != b.to_bits());
-            out.push(DrawRec { outs, num_steps: progress.num_steps, diverging: progress.diverging, avg_step: 0.0, moved, vnorm, micro, step_size: progress.step_size });
+            out.push(DrawRec { outs, num_steps: progress.num_steps, diverging: progress.diverging, avg_step, moved, vnorm, micro, step_size: progress.step_size });
             prev = pos.to_vec();
         }
         Ok(out)
@@ -56,6 +59,10 @@ pub fn oracle(cfg: &Cfg, recs: &[DrawRec]) -> Option<(String, String)> {
         if !r.diverging {
             if ndiv == 0 && r.num_steps != n { return Some(("mclmc.num_steps".into(), format!("draw {d}: {} steps without any divergence, expected max(1, round(f L / eps)) = {n}", r.num_steps))); }
             if r.num_steps < n { return Some(("mclmc.num_steps".into(), format!("draw {d}: only {} steps, base steps {n}", r.num_steps))); }
+            // a draw that is not divergent integrates exactly n base steps of time, however it was subdivided
+            let covered = r.avg_step * r.num_steps as f64;
+            let want = n as f64 * r.step_size;
+            if !((covered - want).abs() <= 1e-9 * want) { return Some(("mclmc.time_covered".into(), format!("draw {d}: integrated time {covered} (average_step_size {} x {} steps), expected {n} base steps x {} = {want}; leapfrog outcomes {:?}", r.avg_step, r.num_steps, r.step_size, r.outs))); }
         } else if r.moved { return Some(("mclmc.divergent_moved".into(), format!("draw {d}: divergent draw changed the position"))); }
         if r.outs.len() as u64 != r.num_steps + ndiv as u64 { return Some(("mclmc.evals".into(), format!("draw {d}: {} density evaluations for {} steps and {ndiv} failed leapfrogs", r.outs.len(), r.num_steps))); }
     }
